@@ -55,6 +55,8 @@ def coq_case(c):
     psks = "[" + "; ".join(f"({coq_str(i)}, {coq_str(v)})" for i, v in c.get("psks", [])) + "]"
     if k == "ks":
         return f"KKs {a} {coq_str(c['init'])} {coq_str(c['commit'])} {coq_str(c['ctx'])} {psks}"
+    if k == "group":
+        return f"KGroup {a} {coq_str(c['init'])} {coq_str(c['commit'])} {coq_str(c['ctx'])} {psks}"
     if k == "psk":
         return f"KPsk {a} {psks}"
     if k == "export":
@@ -75,6 +77,112 @@ def coq_shard(i, cases):
             f"Definition cases : list (kcase * list string) := [\n{items}\n].\n"
             "Eval vm_compute in (ks_mismatches cases).\n")
     return coq_eval_cases(f"C13_cases_{i}", text, timeout=1500)
+
+
+def vparse(b, pos):
+    """MLS variable-length vector at pos: (content, next position)."""
+    p = b[pos] >> 6
+    n = 1 << p
+    ln = int.from_bytes(b[pos:pos + n], "big") & ((1 << (8 * n - 2)) - 1)
+    return b[pos + n:pos + n + ln], pos + n + ln
+
+
+def group_psk_script(rng, i, suite, prov):
+    """A real group: a few epochs, then PSK-only commits WITHOUT update path (commit secret = zeros)
+    whose PSK list mixes external and resumption PSKs in a chosen order."""
+    members = [{"name": n, "provider": prov} for n in "AB"]
+    ops = [{"op": "create", "who": "A"}, {"op": "kp", "who": "B", "id": "kB"}, {"op": "commit", "who": "A", "id": "c0", "add": ["kB"]},
+           {"op": "apply", "who": "A"}, {"op": "join", "who": "B", "welcome_any": "c0"}]
+    ext = {}
+    for k in range(3):
+        pid = "ee%02x%02x" % (i % 256, k)
+        val = rng.bytes(16 + rng.below(40))
+        ext[pid] = val
+        for m in "AB":
+            ops.append({"op": "psk_insert", "who": m, "psk_id": pid, "value": val.hex()})
+    for m in "AB":
+        ops.append({"op": "opts", "who": m, "path_required": False, "encrypt_controls": False})
+    dumps = []
+    ops.append({"op": "secrets_dump", "who": "A"})
+    dumps.append(len(ops) - 1)
+    commits = []
+    epoch = 1
+    for r in range(3):
+        c = "A" if r % 2 == 0 else "B"
+        o = "B" if c == "A" else "A"
+        seq = []
+        for _ in range(2 + rng.below(3)):
+            if rng.chance(1, 2):
+                seq.append("r:%d" % (1 + rng.below(epoch)))    # B joined in epoch 1
+            else:
+                seq.append("e:" + rng.choice(sorted(ext)))
+        # distinct PSKs only (a repeated PSK is an invalid proposal set)
+        seen, seq2 = set(), []
+        for x in seq:
+            if x not in seen:
+                seen.add(x)
+                seq2.append(x)
+        if r == 0:
+            seq2 = ["r:%d" % epoch, "e:" + sorted(ext)[0]] + [x for x in seq2 if x not in ("r:%d" % epoch, "e:" + sorted(ext)[0])]
+        ops.append({"op": "commit", "who": c, "id": f"p{r}", "psk_seq": seq2})
+        ops.append({"op": "deliver", "to": o, "msg": f"p{r}"})
+        di = len(ops) - 1
+        ops.append({"op": "apply", "who": c})
+        ops.append({"op": "secrets_dump", "who": o})
+        dumps.append(len(ops) - 1)
+        ops.append({"op": "secrets_dump", "who": c})
+        commits.append((di, len(ops) - 2, len(ops) - 1, seq2))
+        epoch += 1
+    return {"name": f"c13-g{i}", "suite": suite, "members": members, "ops": ops}, ext, dumps, commits
+
+
+def group_cases(sc, ext, dumps, commits, rs, suite, prov, impl_errors):
+    a = SUITE_ALG[suite]
+    nh = SUITE_NH[a]
+    byi = {r["i"]: r for r in rs if "i" in r}
+    bad = [r for r in rs if r.get("ok") is False or r.get("crash")]
+    if bad:
+        impl_errors.append({"request": "group psk history", "script": sc["name"], "answer": bad[0]})
+        return []
+
+    def split_ks(h):
+        b = bytes.fromhex(h)
+        out, pos = [], 0
+        for _ in range(5):
+            v, pos = vparse(b, pos)
+            out.append(v)
+        return out         # exporter, authentication, external, membership, init
+    res_by_epoch = {}
+    prev = byi[dumps[0]]["info"]
+    res_by_epoch[prev["epoch"]] = bytes.fromhex(prev["resumption"])
+    # epoch 0 of the creator is not observed: resumption PSKs of epoch 0 are avoided by construction? no: look them up lazily
+    out = []
+    for (di, d_other, d_comm, seq) in commits:
+        info = byi[di]["info"]
+        new = byi[d_other]["info"]
+        new2 = byi[d_comm]["info"]
+        if new["ks"] != new2["ks"] or new["resumption"] != new2["resumption"]:
+            impl_errors.append({"request": "committer and receiver hold different key schedules", "script": sc["name"]})
+        encs = [bytes.fromhex(p["enc"]) for p in info.get("detail", []) if p.get("k") == "psk"]
+        psks, ok = [], True
+        for e in encs:
+            if e[0] == 1:      # external: id<V>, nonce<V>
+                idb, pos = vparse(e, 1)
+                psks.append((e, ext.get(idb.hex())))
+            else:              # resumption: usage, group id<V>, epoch u64, nonce<V>
+                gid, pos = vparse(e, 2)
+                ep = int.from_bytes(e[pos:pos + 8], "big")
+                psks.append((e, res_by_epoch.get(ep)))
+            if psks[-1][1] is None:
+                ok = False
+        ks_prev = split_ks(prev["ks"])
+        ks_new = split_ks(new["ks"])
+        if ok:
+            out.append({"kind": "group", "alg": a, "init": ks_prev[4], "commit": bytes(nh), "ctx": bytes.fromhex(new["ctx"]), "psks": psks,
+                        "expected": ks_new + [bytes.fromhex(new["resumption"])], "suite": suite, "prov": prov, "order": seq})
+        res_by_epoch[new["epoch"]] = bytes.fromhex(new["resumption"])
+        prev = new
+    return out
 
 
 def main(run, args):
@@ -222,12 +330,25 @@ def main(run, args):
                 continue
             cases.append({"kind": "key", "alg": a, "depth": depth, "leaf": leaf, "hs": hs, "gen": g, "nk": sizes[suite]["nk"], "nn": sizes[suite]["nn"],
                           "enc": enc, "expected": [bytes.fromhex(k[0]), bytes.fromhex(k[1])], "suite": suite, "prov": prov})
+    # ---- real groups: PSK-only commits without a path, PSK lists in chosen order (resumption
+    # before external and vice versa); what the members' key schedules hold afterwards must be
+    # the RFC value computed from the PSKs IN THE ORDER OF THE COMMIT
+    gitems = []
+    for i in range(6 if quick else 40):
+        suite, prov = [(1, "openssl"), (2, "rustcrypto"), (3, "awslc"), (7, "openssl")][i % 4]
+        gitems.append((group_psk_script(rng, i, suite, prov), suite, prov))
+    grecs = run_scripts([g[0][0] for g in gitems], timeout=1500)
+    n_group = 0
+    for ((sc, ext, dumps, commits), suite, prov), rs in zip(gitems, grecs):
+        gc = group_cases(sc, ext, dumps, commits, rs, suite, prov, impl_errors)
+        n_group += len(gc)
+        cases += gc
     # ---- model
     mism = []
     coq_cases = 0
     if ok1 and ok2 and os.path.exists(os.path.join(COQ, "Model", "KsCases.vo")):
         def cost(c):
-            base = {"ks": 25 + 6 * len(c.get("psks", [])), "psk": 2 + 6 * len(c.get("psks", [])), "export": 4 + c.get("len", 0) // 32,
+            base = {"group": 25 + 6 * len(c.get("psks", [])), "ks": 25 + 6 * len(c.get("psks", [])), "psk": 2 + 6 * len(c.get("psks", [])), "export": 4 + c.get("len", 0) // 32,
                     "key": 3 + c.get("depth", 0) + c.get("gen", 0), "transcript": 6, "mtag": 5}[c["kind"]]
             return base * (1 if c["alg"] == 0 else 3)
         order = sorted(cases, key=cost, reverse=True)
@@ -249,6 +370,9 @@ def main(run, args):
                 c = shards[si][idx]
                 mism.append({k: (v.hex() if isinstance(v, bytes) else ([[a.hex(), b.hex()] for a, b in v] if k == "psks" else ([e.hex() for e in v] if k == "expected" else v))) for k, v in c.items()})
     run.obligation("correspondence RFC model (Gallina SHA-2/HKDF, vm_compute) = library bytes", not mism and coq_cases > 0 and not impl_errors)
+    run.cov["group_level_psk_commits"] = n_group
+    if n_group < 6:
+        broken.append(("generator", f"only {n_group} group-level PSK commits could be compared"))
     hist = {}
     for c in cases:
         key = f"{c['kind']}/suite{c['suite']}/{c['prov']}"
